@@ -12,12 +12,21 @@ import (
 var ErrInjected = errors.New("injected I/O fault")
 
 // Other non-EOF errors a failing stream may deliver: one that is not io.EOF but has io.EOF in
-// its Unwrap chain (a transport adding context to every error), and io.ErrUnexpectedEOF (what
-// truncated compressed streams report).
+// its Unwrap chain (a transport adding context to every error), io.ErrUnexpectedEOF (what
+// truncated compressed streams report), and one that declares itself temporary.
 var (
 	ErrWrapsEOF = fmt.Errorf("connection reset while reading: %w", io.EOF)
-	ErrKinds    = []error{ErrInjected, ErrWrapsEOF, io.ErrUnexpectedEOF}
+	// ErrTemporary is of the class net timeouts and EAGAIN belong to: it has Temporary() and
+	// Timeout() methods that return true. It is still a failure of the stream.
+	ErrTemporary error = temporaryError{}
+	ErrKinds           = []error{ErrInjected, ErrWrapsEOF, io.ErrUnexpectedEOF, ErrTemporary}
 )
+
+type temporaryError struct{}
+
+func (temporaryError) Error() string   { return "i/o timeout (injected, temporary)" }
+func (temporaryError) Temporary() bool { return true }
+func (temporaryError) Timeout() bool   { return true }
 
 // Chunked delivers data in the listed chunk sizes (applied cyclically, each at least 1 byte
 // and at most len(p)); with EOFWithData the final bytes arrive together with io.EOF.
